@@ -584,10 +584,8 @@ def oracle(ops, outs):
                     name2, again = ref_one(r2)
                     if again != want or r2.p != len(enc):
                         bad.append((i, f"frame:{name}:roundtrip", f"{op}: re-encoded {hexs(enc)} decodes to `{again}` ({r2.p} of {len(enc)} bytes), expected `{want}`"))
-                    elif not r2.shortest and name2 not in ("DC_STATELESS_RESET_TOKENS", "MTU_PROBING_COMPLETE"):
-                        bad.append((i, f"frame:{name}:shortest", f"{op}: re-encoded {hexs(enc)} contains an integer that is not in its shortest form"))
                     elif not r2.shortest:
-                        bad.append((i, f"frame:{name}:shortest", f"{op}: re-encoded extension frame {hexs(enc)} contains an integer that is not in its shortest form"))
+                        bad.append((i, f"frame:{name}:shortest", f"{op}: re-encoded {hexs(enc)} contains an integer that is not in its shortest form"))
                 except Bad as e:
                     bad.append((i, f"frame:{name}:roundtrip", f"{op}: re-encoded {hexs(enc)} does not decode ({e})"))
             elif out.startswith("err"):
